@@ -198,11 +198,21 @@ def body_scripted(case):
                             k_path=[(s["entry"]["k"], s["exit"]["k"]) for s in tr.steps if s["kind"] == "poll" and s["exit"]][:16]))
 
 
+# the statement describes the default mesh controller (powers of two, threshold max(mesh^1.5, tol_fun), acceleration after 3
+# stalled steps, no grid cap): options that re-parameterise that controller are outside it
+ADV_EXCLUDE = ("poll_mesh_multiplier", "max_poll_grid_number", "tol_improvement", "forcing_exponent", "accelerate_mesh_steps",
+               "search_mesh_expand", "search_grid_multiplier", "search_grid_number", "sloppy_improvement",
+               # StoBADS judges success by its own uncertain-interval rule, not by 'sufficient improvement'
+               "stobads", "opp_stobads", "stobads_frame_size_scaling_power")
+
+
 def plan(tier):
-    return [("runs", 16), ("scripted", 16)]
+    return [("runs", 16), ("scripted", 16), ("advopts", 16)]
 
 
 def run_part(res, part, tier, seed, shard, nshards):
+    if part == "advopts":
+        return runlevel.adv_sweep(res, PROFILE, tier, seed, shard, nshards, body, exclude=ADV_EXCLUDE)
     if part == "runs":
         runlevel.sweep(res, PROFILE if tier == "quick" else PROFILE_T, N[tier], seed, shard, nshards, body)
     else:
@@ -215,7 +225,7 @@ def run_part(res, part, tier, seed, shard, nshards):
 
 def minimise(part, tier, sig, case, seed):
     mr = 12 if tier == "quick" else 40
-    if part == "runs":
+    if part in ("runs", "advopts"):
         return runlevel.field_minimise(case, sig, body, max_runs=mr)
     return runlevel.field_minimise(case, sig, body_scripted, max_runs=mr, simplifier=C03._simp_scripted)
 
